@@ -114,6 +114,9 @@ func main() {
 				}
 			}
 		case *ast.DeferStmt:
+			if isHook(x.Call) {
+				return true
+			}
 			if s, e, ok := stmtRange(x); ok {
 				edits = append(edits, edit{s, e, "", "del-defer", line(x.Pos())})
 			}
